@@ -528,9 +528,14 @@ def solve(equations, invocation, verbose=False):
         elif isinstance(expr, stage1.Ellipsis):
             key = (id(expr), expr_depths[id(expr)])
             if key in expansion_values:
-                # Ellipsis is expanded
+                # Ellipsis is expanded: The number of repetitions is the number of dimensions spanned by the ellipsis divided
+                # by the number of dimensions spanned by a single repetition of the inner expression (e.g. 2 for "[a b]...")
                 expansion = expansion_values[key]
                 assert expansion >= 0
+                inner_expansion = expansion_values.get((id(expr.inner), expr_depths[id(expr)] + 1), 1)
+                if inner_expansion > 1:
+                    assert expansion % inner_expansion == 0
+                    expansion = expansion // inner_expansion
                 return [c for i in range(expansion) for c in map(expr.inner, ellipsis_indices=ellipsis_indices + [(i, expansion)])]
             else:
                 # Ellipsis is not expanded -> convert to named axis
